@@ -51,12 +51,12 @@ Lemma at_brk_end : forall c, (rd (rM c) (rPC c) =? end_of_test_opcode) = at_brk 
 Proof. reflexivity. Qed.
 
 (* ---- runner = executable spec, for every element list, machine state, trace history and run length ---- *)
-Lemma run_spec_run : forall n els c traces,
-  run n (mkRunner els c traces) <> VPanic ->
-  view (run n (mkRunner els c traces)) = spec_run n els c.
+Lemma run_spec_run : forall n els c d traces,
+  run n (mkRunner els c d traces) <> VPanic ->
+  view (run n (mkRunner els c d traces)) = spec_run n els c.
 Proof.
-  induction n as [|n IH]; intros els c traces H; [reflexivity|].
-  cbn [run spec_run] in *. unfold execute_instruction in *. cbn [r_cpu test_elements formatted_traces] in *.
+  induction n as [|n IH]; intros els c d traces H; [reflexivity|].
+  cbn [run spec_run] in *. unfold execute_instruction in *. cbn [r_cpu test_elements formatted_traces call_depth] in *.
   destruct (fire_traces c (rPC c) els) as [nt|]; [|congruence].
   rewrite fire_assertions_spec in *.
   destruct (first_violation c (asserts_at els (rPC c))) as [|a|]; [|reflexivity|congruence].
@@ -67,11 +67,11 @@ Proof.
 Qed.
 
 (* a panic of the runner that the spec does not report comes from a trace expression only *)
-Lemma spec_abort_run_panic : forall n els c traces,
-  spec_run n els c = SAbort -> run n (mkRunner els c traces) = VPanic.
+Lemma spec_abort_run_panic : forall n els c d traces,
+  spec_run n els c = SAbort -> run n (mkRunner els c d traces) = VPanic.
 Proof.
-  induction n as [|n IH]; intros els c traces H; [discriminate|].
-  cbn [run spec_run] in *. unfold execute_instruction. cbn [r_cpu test_elements formatted_traces].
+  induction n as [|n IH]; intros els c d traces H; [discriminate|].
+  cbn [run spec_run] in *. unfold execute_instruction. cbn [r_cpu test_elements formatted_traces call_depth].
   destruct (fire_traces c (rPC c) els) as [nt|]; [|reflexivity].
   rewrite fire_assertions_spec.
   destruct (first_violation c (asserts_at els (rPC c))) as [|a|]; [|discriminate|reflexivity].
@@ -232,7 +232,7 @@ Proof.
 Qed.
 
 (* ---- the statements of props/C18.v ---- *)
-Definition runner0 (els : list test_element) (c0 : cpu) : runner := mkRunner els c0 [].
+Definition runner0 (els : list test_element) (c0 : cpu) : runner := mkRunner els c0 0 [].
 
 Theorem runner_spec : forall n els c0,
   run n (runner0 els c0) <> VPanic -> view (run n (runner0 els c0)) = spec_run n els c0.
@@ -373,9 +373,9 @@ Definition execute_instruction_removing (r : runner) : execute_result :=
       | FPanic => ExecPanic
       | FFail a => TestFailed (mkFailure (failure_message a) (a_loc a) c traces)
       | FNone =>
-          if rd (rM c) pc =? end_of_test_opcode then TestSuccess (mkRunner rest c traces)
+          if rd (rM c) pc =? end_of_test_opcode then TestSuccess (mkRunner rest c (call_depth r) traces)
           else match exec c with
-               | Some c' => Running (mkRunner rest c' traces)
+               | Some c' => Running (mkRunner rest c' (call_depth r) traces)
                | None => OutOfSubset
                end
       end
